@@ -45,7 +45,7 @@ func init() {
 	caseGens["C17"] = caseGen{count: c17Count, gen: c17Gen}
 }
 
-const c17NQ = 10 // cases per round: 5 traced + 5 race-detector runs
+const c17NQ = 11 // cases per round: 5 traced + 6 race-detector runs
 
 func c17Count(tier string) int {
 	if tier == "thorough" {
@@ -67,6 +67,7 @@ type c17Cfg struct {
 	narch   int    // number of raw-data-block requests
 	long    bool   // tri only: blocks of 2.5 s, so that ONE block closes several 1-second trigger-rate periods
 	stall   bool   // race only: the LJH file of one channel is a stalled named pipe, so that its write queue runs full
+	restart bool   // race only: a large raw-data block is being written to its file when the source is stopped and started again
 	groups  int    // abaco only: number of channel groups in the packet stream (nchan channels each)
 	quiet   int    // ms of run time without control requests while files are written: the status thread's delayed
 	               // save (2 s after the last change of a saved setting) fires while core-loop status messages keep coming
@@ -74,8 +75,8 @@ type c17Cfg struct {
 }
 
 func (c c17Cfg) String() string {
-	return fmt.Sprintf("kind %s src %s nchan %d runms %d yield %d savegap %d narch %d long %d quiet %d groups %d stall %d", c.kind, c.src, c.nchan,
-		c.runMs, c.yield, b2i(c.saveGap), c.narch, b2i(c.long), c.quiet, c.groups, b2i(c.stall))
+	return fmt.Sprintf("kind %s src %s nchan %d runms %d yield %d savegap %d narch %d long %d quiet %d groups %d stall %d restart %d", c.kind, c.src, c.nchan,
+		c.runMs, c.yield, b2i(c.saveGap), c.narch, b2i(c.long), c.quiet, c.groups, b2i(c.stall), b2i(c.restart))
 }
 
 var c17Once sync.Once
@@ -408,6 +409,55 @@ func c17Run(cfg c17Cfg) string {
 	return fmt.Sprintf("start=ok ok=%d err=%d arch=%d/%d", nok, nerr, narchOK, len(archives))
 }
 
+// c17RunRestart: a raw-data block big enough that writing its npz file takes a fraction of a second is requested; as soon
+// as the file has begun to be written the client stops the source and starts the SAME source again (Sample and
+// PrepareChannels rebuild the per-channel tables) while the archive writer goroutine of the first run is still at work —
+// nothing in Stop waits for it.  After a few blocks of the second run the file is awaited and the source stopped.
+func c17RunRestart(cfg c17Cfg) string {
+	c17Setup()
+	sc := dastard.VerifC17NewControl(8, 32)
+	var ok bool
+	// 10000-sample blocks every 10 ms
+	if err := sc.ConfigureTriangleSource(&dastard.TriangleSourceConfig{Nchan: cfg.nchan, SampleRate: 1e6, Min: 0, Max: 5000}, &ok); err != nil {
+		return "start=failed:configure"
+	}
+	name := "TRIANGLESOURCE"
+	if err := sc.Start(&name, &ok); err != nil {
+		return "start=failed:" + strings.ReplaceAll(err.Error(), " ", "_")
+	}
+	var final string
+	if err := sc.StoreRawDataBlock(30000, &final); err != nil {
+		return "start=failed:archive-request"
+	}
+	inprogress := strings.Replace(final, ".npz", "_inprogress.npz", 1)
+	began := false
+	for deadline := time.Now().Add(20 * time.Second); time.Now().Before(deadline); time.Sleep(time.Millisecond) {
+		if info, err := os.Stat(inprogress); err == nil && info.Size() > 0 {
+			began = true
+			break
+		}
+		if _, err := os.Stat(final); err == nil {
+			break
+		}
+	}
+	var dummy string
+	errStop := sc.Stop(&dummy, &ok)
+	errStart := sc.Start(&name, &ok) // the same source object
+	_, errDone := os.Stat(final)
+	overlap := began && errDone != nil // the writer of the first run was still at work when the second run started
+	time.Sleep(time.Duration(cfg.runMs) * time.Millisecond)
+	written := false
+	for deadline := time.Now().Add(30 * time.Second); time.Now().Before(deadline); time.Sleep(5 * time.Millisecond) {
+		if _, err := os.Stat(final); err == nil {
+			written = true
+			break
+		}
+	}
+	errStop2 := sc.Stop(&dummy, &ok)
+	return fmt.Sprintf("start=ok stop=%d restart=%d stop2=%d overlap=%d written=%d", b2i(errStop == nil), b2i(errStart == nil),
+		b2i(errStop2 == nil), b2i(overlap), b2i(written))
+}
+
 // c17RunStall: writing is active and the LJH file of the first channel is a named pipe nobody drains: the file-writer
 // goroutine of that channel blocks in the kernel, its queue (1000 chunks) runs full, and the per-channel processing
 // goroutine keeps calling Write on the full queue.  Then the pipe is drained, writing is stopped, the source stopped.
@@ -704,9 +754,10 @@ func c17Gen(r *Rng, tier string, idx int) (string, func() string) {
 		// we are the -race child: run exactly the scenario the parent drew, in this process, hooks quiet
 		var cfg c17Cfg
 		var sg int
-		var lg, st int
-		fmt.Sscanf(inner, "kind %s src %s nchan %d runms %d yield %d savegap %d narch %d long %d quiet %d groups %d stall %d", &cfg.kind, &cfg.src,
-			&cfg.nchan, &cfg.runMs, &cfg.yield, &sg, &cfg.narch, &lg, &cfg.quiet, &cfg.groups, &st)
+		var lg, st, rs int
+		fmt.Sscanf(inner, "kind %s src %s nchan %d runms %d yield %d savegap %d narch %d long %d quiet %d groups %d stall %d restart %d", &cfg.kind, &cfg.src,
+			&cfg.nchan, &cfg.runMs, &cfg.yield, &sg, &cfg.narch, &lg, &cfg.quiet, &cfg.groups, &st, &rs)
+		cfg.restart = rs != 0
 		cfg.saveGap = sg != 0
 		cfg.long = lg != 0
 		cfg.stall = st != 0
@@ -715,6 +766,9 @@ func c17Gen(r *Rng, tier string, idx int) (string, func() string) {
 			dastard.VerifC17Yield(cfg.yield)
 			if cfg.stall {
 				return c17RunStall(cfg)
+			}
+			if cfg.restart {
+				return c17RunRestart(cfg)
 			}
 			return c17Run(cfg)
 		}
@@ -747,6 +801,8 @@ func c17Gen(r *Rng, tier string, idx int) (string, func() string) {
 		}
 	case k == 8: // race-detector run with long blocks
 		cfg.kind, cfg.src, cfg.long, cfg.runMs, cfg.narch = "race", "tri", true, 6000, 1
+	case k == 10: // race-detector run: Stop and Start again while a large raw-data block is still being written to its file
+		cfg.kind, cfg.src, cfg.restart, cfg.runMs, cfg.narch, cfg.nchan = "race", "tri", true, 300, 1, 8
 	default: // race-detector run with a stalled output file: one channel's write queue runs full while records keep coming
 		cfg.kind, cfg.src, cfg.stall, cfg.runMs, cfg.narch, cfg.nchan = "race", "tri", true, 2400, 0, 2
 	}
